@@ -133,6 +133,8 @@ class Path:
 
 
 _FID = [0]
+_STEPS = [0]                 # basic blocks interpreted for the current top-level evaluation (all nested frames)
+_STEP_BUDGET = [400000]
 
 
 class Interp:
@@ -372,6 +374,31 @@ class Interp:
                 return [(True, [], "return", dict(self.mstate))]
             if nm == "unwrap_or" and len(args) == 2:
                 return [(inner[0] if hit else args[1], [], "return", dict(self.mstate))]
+            if nm == "filter" and key[0].endswith("Option") and len(args) == 2:
+                if not hit:
+                    return [(NONE, [], "return", dict(self.mstate))]
+                # the predicate receives a reference to the payload; a plain value stands for its own reference
+                outs = self.call_value(args[1], inner)
+                if outs is None:
+                    return None
+                res = []
+                for (r, ev, e, ms) in outs:
+                    if e != "return":
+                        res.append((r, ev, e, ms))
+                    elif isinstance(r, bool):
+                        res.append((a0 if r else NONE, ev, e, ms))
+                    else:
+                        res.append((a0, ev, e, ms))
+                        res.append((NONE, ev, e, ms))
+                return res
+            if nm == "zip" and key[0].endswith("Option") and len(args) == 2 and isinstance(args[1], Agg) and args[1].name == key[0]:
+                both = hit and args[1].variant == "Some"
+                return [(some(Agg("tuple", None, None, [inner[0], args[1].fields[0]])) if both else NONE, [], "return", dict(self.mstate))]
+            if nm in ("or", "xor") and key[0].endswith("Option") and len(args) == 2 and isinstance(args[1], Agg) and args[1].name == key[0]:
+                o_hit = args[1].variant == "Some"
+                if nm == "or":
+                    return [(a0 if hit else args[1], [], "return", dict(self.mstate))]
+                return [((a0 if hit else args[1]) if hit != o_hit else NONE, [], "return", dict(self.mstate))]
         if f.get("key") in ("bool::then_some", "bool::then") and len(args) == 2 and a0 is TOP:
             # undecided condition: both outcomes
             res = [(NONE, [], "return", dict(self.mstate))]
@@ -728,6 +755,8 @@ class Interp:
     variant_index = None
 
     def run(self):
+        if self.depth == 0:
+            _STEPS[0] = 0
         env0 = dict(getattr(self, "extra_env", {}) or {})
         for i, a in enumerate(self.args):
             env0[i + 1] = a
@@ -739,6 +768,13 @@ class Interp:
             self.mstate = mstate
             path.mstate = mstate
             while True:
+                _STEPS[0] += 1
+                if _STEPS[0] > _STEP_BUDGET[0]:
+                    # evaluation budget of this scenario exhausted (path explosion on undecided conditions): undecided
+                    path.end = "limit"
+                    self.paths.append(path)
+                    stack[:] = []
+                    break
                 visits[bb] = visits.get(bb, 0) + 1
                 if visits[bb] > self.max_visits:
                     path.end = "limit"
